@@ -312,10 +312,11 @@ def indexed(R, rng, tier):
     for d, kinds, keep in datasets():
         if d.ndim < 2:
             continue
-        options = [[None] + list(range(s)) for s in d.shape]
+        options = [[None] + list(range(s)) + [-1, -s] for s in d.shape]      # negative indices count from the end
         all_idx = [t for t in itertools.product(*options) if any(x is None for x in t) and any(x is not None for x in t)]
-        if tier == 'quick' and len(all_idx) > 12:
-            all_idx = rng.sample(all_idx, 12)
+        if tier == 'quick' and len(all_idx) > 16:
+            neg = [t for t in all_idx if any(x is not None and x < 0 for x in t)]
+            all_idx = rng.sample([t for t in all_idx if t not in neg], 10) + rng.sample(neg, 6)
         sels = selections(d, kinds)
         for idx in all_idx:
             for change in (False, True):
@@ -391,6 +392,28 @@ def indexed(R, rng, tier):
                     exp = np.nansum(vals[msk]) if msk.any() and not np.all(np.isnan(vals[msk])) else np.nan
                     if not (np.isclose(got, exp, equal_nan=True) or (np.isnan(exp) and got == 0) or (np.isnan(got) and exp == 0)):
                         R.fail("indexed|statistic|sum-subset", "IndexedData(%s, %r) sum over a selection = %r, parent slice gives %r" % (d.label, idx, got, exp), None)
+                    # reductions along an axis, with selections that may be empty inside this slice (NaN of the reduced shape expected)
+                    for sname2 in ('inequality', 'range', 'mask'):
+                        st2 = sels[sname2]
+                        msk2 = np.asarray(d.get_mask(st2))[pslice]
+                        for ax in list(range(vals.ndim)) + ([tuple(range(vals.ndim))] if vals.ndim > 1 else []):
+                            with np.errstate(all='ignore'):
+                                import warnings as _w
+                                with _w.catch_warnings():
+                                    _w.simplefilter('ignore')
+                                    expa = np.nansum(np.where(msk2 & np.isfinite(vals), vals, np.nan), axis=ax)
+                                    cnt = np.sum(msk2 & np.isfinite(vals), axis=ax)
+                                    expa = np.where(cnt > 0, expa, np.nan)
+                                    gota = np.asarray(ind.compute_statistic('sum', icid, subset_state=st2, axis=ax), dtype=float)
+                            if gota.shape != np.shape(expa) or not np.allclose(gota, expa, equal_nan=True):
+                                R.fail("indexed|statistic|axis-subset|%s" % ('shape' if gota.shape != np.shape(expa) else 'value'),
+                                       "IndexedData(%s, %r) sum over selection %s along axis %r = %s (shape %r), parent slice gives %s (shape %r)"
+                                       % (d.label, idx, sname2, ax, gota.tolist(), gota.shape, np.asarray(expa).tolist(), np.shape(expa)), None)
+                        hs = ind.compute_histogram([icid], range=[(-5.25, 15.5)], bins=[4], subset_state=st2)
+                        vs = vals[msk2]
+                        hes = np.histogram(vs[np.isfinite(vs)], bins=4, range=(-5.25, 15.5))[0]
+                        if not np.array_equal(np.asarray(hs), hes):
+                            R.fail("indexed|histogram-subset", "IndexedData(%s, %r).compute_histogram over selection %s = %s, parent slice gives %s" % (d.label, idx, sname2, np.asarray(hs).tolist(), hes.tolist()), None)
                     h = ind.compute_histogram([icid], range=[(-5.25, 15.5)], bins=[4])   # no data value on a bin edge
                     he = np.histogram(vals[np.isfinite(vals)], bins=4, range=(-5.25, 15.5))[0]
                     if not np.array_equal(np.asarray(h), he):
